@@ -16,7 +16,7 @@ RULE = ('(a) TruncationMonitor on every depth-0 public UTPM call with D>1 while 
         'D\'=1 forward result against the program run on plain ndarrays; eigen/singular vectors only when the eigenvalues of A_0 are '
         'distinct; class = (call or program, D, shapes); non-trivial = some input coefficient of order >= D\' is non-zero')
 ASSUMPTIONS = ['the same operation on the truncated polynomial is the reference', 'eig is excluded (supports D<=2 only by its own assertion)']
-REQUIRED = ['truncation-shadow', 'program:forward', 'program:reverse', 'program:D1-equals-numpy', 'hostile:large-high-coefficients', 'pattern', 'kink', 'highD']
+REQUIRED = ['truncation-shadow', 'program:forward', 'program:reverse', 'program:D1-equals-numpy', 'hostile:large-high-coefficients', 'pattern', 'kink', 'highD', 'late-complex']
 
 _mon = None
 
@@ -66,6 +66,9 @@ def cases(tier, seed):
     for i, D in enumerate((33, 40) if tier == 'quick' else (32, 33, 36, 40, 48, 64, 65)):
         for rep in range(4):
             out.append({'kind': 'highD', 'seed': case_seed('C12', seed, 'highD', D, rep), 'params': {'D': D}})
+    for D in (3, 4, 5):
+        for k in range(1, D):
+            out.append({'kind': 'latecomplex', 'seed': case_seed('C12', seed, 'latecomplex', D, k), 'params': {'D': D, 'k': k}})
     for i in range(24 if tier == 'quick' else 200):
         out.append({'kind': 'hostile', 'seed': case_seed('C12', seed, 'hostile', i), 'params': {'which': i % 6, 'D': 3 + i % 3}})
     return out
@@ -85,6 +88,8 @@ def run_case(ctx, case):
         return _hostile(ctx, case['params'], rng)
     if case['kind'] == 'highD':
         return _highD(ctx, case['params'], rng)
+    if case['kind'] == 'latecomplex':
+        return _latecomplex(ctx, case['params'], rng)
     if case['kind'] == 'pattern':
         return _pattern(ctx, case['params'], rng)
     if case['kind'] == 'kink':
@@ -109,6 +114,31 @@ def _pattern(ctx, p, rng):
                 ctx.skip('sut-raises:pattern')
     if sum(ctx.violation_count.values()) == before:
         ctx.ok('pattern', ('pattern', p['fn'], p['pattern'], p['D']))
+
+
+def _latecomplex(ctx, p, rng):
+    """a polynomial of complex dtype whose low-order coefficients are exactly real and whose imaginary parts only start at order k:
+    the low orders must be what the same data truncated below k gives, also when the real base point lies on a branch cut
+    (NumPy's value there is the one of the +0j side)"""
+    D, k = p['D'], p['k']
+    before = sum(ctx.violation_count.values())
+    for nm, base in (('arcsin', [2.0, -1.5]), ('arccos', [1.75, -3.0]), ('sqrt', [-2.0, 0.5]), ('log', [-1.5, 2.0]), ('exp', [0.3, -1.0]), ('sin', [0.7, 2.0]),
+                     ('arctan', [0.5, -2.0]), ('tan', [0.4, -0.6]), ('reciprocal', [-2.0, 0.5]), ('log1p', [-3.0, 0.5]), ('square', [1.5, -0.5])):
+        d = np.zeros((D, 1, 2), dtype=complex)
+        d[0, 0] = base
+        d[1:, 0] = 0.5 * rng.normal(size=(D - 1, 2))
+        d[k:, 0] += 0.5j * rng.normal(size=(D - k, 2))
+        try:
+            getattr(algopy, nm)(UTPM(d.copy()))
+        except Exception:
+            ctx.skip('sut-raises:latecomplex')
+    try:
+        x = UTPM(d.copy()); x.data[0] = [[2.0, 0.5]]
+        x ** 2.5; x ** 3; x * x; x / (x + 3.0)
+    except Exception:
+        ctx.skip('sut-raises:latecomplex')
+    if sum(ctx.violation_count.values()) == before:
+        ctx.ok('late-complex', ('latecomplex', D, k))
 
 
 def _highD(ctx, p, rng):
